@@ -15,7 +15,7 @@ POLICIES = [(h, s) for h in range(4) for s in range(4) if not (h == 0 and s == 3
 
 
 def tok_len(t):
-    if t in ("K", "KZ"):
+    if t in ("K", "KZ", "KL"):
         return 96
     if t in ("R", "RX"):
         return 20
@@ -100,6 +100,12 @@ def matrix(rng, full):
             for (b, d) in combos:
                 ph, sg = out_mse(p, b, d)
                 cases.append(case_out(hs, st, 1, "X", script(ph, sg)))
+        # forced leading-zero shared secret; PadB right below the sync-search limit
+        ph, sg = out_mse(3, rng.choice(PADS), rng.choice(PADS))
+        ph[0][0] = "KL"
+        cases.append(case_out(hs, st, 1, "X", script(ph, sg)))
+        ph, sg = out_mse(3, rng.choice([506, 507, 508, 509, 510]), rng.choice(PADS))
+        cases.append(case_out(hs, st, 1, "X", script(ph, sg)))
         # a remote that accepts both handshake types
         ph, sg = out_mse(3, rng.choice(PADS), rng.choice(PADS))
         cases.append(case_out(hs, st, 1, plain_script(), script(ph, sg)))
@@ -130,7 +136,7 @@ def seg_sweep(rng, full):
                 ph, _ = out_mse(3 if st != 0 else 1, b, d)
                 for pi in range(2):
                     bs, total = boundaries(ph[pi])
-                    cuts = sorted({o for x in bs for o in (x - 1, x, x + 1) if 0 < o < total} | {7, 8, 13, 14, 15})
+                    cuts = sorted({o for x in bs for o in (x - 1, x, x + 1) if 0 < o < total} | set(range(1, 20)))
                     for o in cuts:
                         if 0 < o < total:
                             sg = ["W", "W"]
